@@ -11,8 +11,8 @@ import subprocess
 import sys
 import time
 
-REPO = "/repo"
-VERIF = "/verif"
+REPO = os.environ.get("MUT_REPO", "/repo")
+VERIF = os.environ.get("MUT_VERIF", "/verif")
 
 # (name, property, file, old, new, note)
 M = [
